@@ -110,7 +110,9 @@ REQUIRED_THEOREMS = ["failure_atomic", "no_leak_on_failure", "send_consumes_pdu"
                      "send_pdu_consumed_exactly_once", "send_delayed_iff", "delayed_send_node_failure_releases_once",
                      "delayed_send_succeeds_with_memory", "connected_drain_spec", "drain_reqs_replays",
                      "recv_at_most_one_partial", "recv_pdu_released_once", "recv_script_clean", "recv_no_leak_on_failure",
-                     "recv_alloc_failure_is_failure_exit", "recv_new_session_starts_clean"]
+                     "recv_alloc_failure_is_failure_exit", "recv_new_session_starts_clean",
+                     "recv_dispatches_what_reader_delivers", "recv_dispatches_spec_frames", "recv_served_after_failure",
+                     "recv_ledger_replays"]
 RULE = ("(1) helper-layer scripts `ahelp k1 k2 <ops>`: random sequences (4..16 calls) of coap_pdu_init / add_token / add_option "
         "(ascending numbers, lengths on both sides of 12/13, 268/269) / add_data / pdu_resize / pdu_check_resize / delete_pdu / "
         "new_optlist+insert_optlist / add_optlist_pdu / delete_optlist / new_string|str_const|bin_const / delete / coap_send "
